@@ -230,18 +230,18 @@ theorem gappedStr_chars {seq : List Char} {t : Trace} {k : Nat} {cs : List Char}
     · cases hc
 
 /-- `C11_fasta_roundtrip` for the whole alignment -/
-theorem fasta_roundtrip_cols (seqs : List (List Char)) (t : Trace)
+theorem fasta_roundtrip_cols (extra : List Char) (seqs : List (List Char)) (t : Trace)
     (hn : 2 ≤ seqs.length) (hrect : ∀ c ∈ t, c.length = seqs.length)
-    (hsym : ∀ seq ∈ seqs, ∀ c ∈ seq, c ≠ '-' ∧ c ≠ '_')
+    (hsym : ∀ seq ∈ seqs, ∀ c ∈ seq, c ≠ '-' ∧ c ∉ extra)
     (hcov : ∀ k (h : k < seqs.length), covered t k = List.range seqs[k].length) :
-    ∃ strs, gappedStrings seqs t = .ok strs ∧ fastaGet ['_'] strs = .ok (seqs, t) := by
+    ∃ strs, gappedStrings seqs t = .ok strs ∧ fastaGet extra strs = .ok (seqs, t) := by
   obtain ⟨strs, hs, hl, hrow, htr⟩ := strings_roundtrip_cols seqs t (fun _ => 0)
     (fun k => if h : k < seqs.length then seqs[k].length else 0) hn hrect
     (fun seq hseq c hc => (hsym seq hseq c hc).1)
     (fun k hk => by simp only [hk, dite_true]; rw [hcov k hk, List.range_eq_range'])
     (fun k hk j hj => by rw [hcov k hk] at hj; simpa using hj)
   refine ⟨strs, hs, ?_⟩
-  have hsame : (strs.map fun x => x.map fun c => if c ∈ ['_'] then '-' else c) = strs := by
+  have hsame : (strs.map fun x => x.map fun c => if c ∈ extra then '-' else c) = strs := by
     conv => rhs; rw [← List.map_id strs]
     apply List.map_congr_left
     intro x hx
@@ -251,7 +251,7 @@ theorem fasta_roundtrip_cols (seqs : List (List Char)) (t : Trace)
     apply List.map_congr_left
     intro ch hch
     rcases gappedStr_chars (hrow k hk' hk) ch hch with rfl | hmem
-    · decide
+    · simp
     · have := (hsym _ (List.getElem_mem hk') ch hmem).2
       simp [this]
   have hstrip : strs.map stripChars = seqs := by
@@ -266,6 +266,40 @@ theorem fasta_roundtrip_cols (seqs : List (List Char)) (t : Trace)
     · rw [List.getElem?_eq_none (by simpa [hl] using Nat.le_of_not_lt hk), List.getElem?_eq_none (Nat.le_of_not_lt hk)]
   unfold fastaGet
   simp only [hsame, htr, shiftTrace_zero, hstrip, Except.map]
+
+/-- gaps written with additional gap characters: a text `strs'` that differs from `strs` only by writing some `-`
+as a character of `extra` is read exactly like `strs` (which is read like plain text), for any set `extra` -/
+theorem fastaGet_gapchars (extra : List Char) (strs strs' : List (List Char))
+    (hclean : ∀ s ∈ strs, ∀ c ∈ s, c ∉ extra)
+    (hsub : All₂ (All₂ fun c c' => c' = c ∨ (c = '-' ∧ c' ∈ extra)) strs strs') :
+    fastaGet extra strs' = fastaGet [] strs := by
+  have hrow : ∀ (x x' : List Char), (∀ c ∈ x, c ∉ extra) →
+      All₂ (fun c c' => c' = c ∨ (c = '-' ∧ c' ∈ extra)) x x' → (x'.map fun c => if c ∈ extra then '-' else c) = x := by
+    intro x x' hx h
+    induction h with
+    | nil => rfl
+    | @cons c c' l l' hcc _ ih =>
+      rw [List.map_cons, ih fun d hd => hx d (List.mem_cons_of_mem _ hd)]
+      congr 1
+      rcases hcc with rfl | ⟨rfl, hm⟩
+      · simp [hx c' (List.mem_cons_self ..)]
+      · simp [hm]
+  have h1 : (strs'.map fun x => x.map fun c => if c ∈ extra then '-' else c) = strs := by
+    induction hsub with
+    | nil => rfl
+    | @cons x x' l l' hxx _ ih =>
+      rw [List.map_cons, hrow x x' (hclean x (List.mem_cons_self ..)) hxx,
+        ih fun y hy => hclean y (List.mem_cons_of_mem _ hy)]
+  have h2 : (strs.map fun x => x.map fun c => if c ∈ ([] : List Char) then '-' else c) = strs := by
+    conv => rhs; rw [← List.map_id strs]
+    apply List.map_congr_left
+    intro x _
+    conv => rhs; rw [id, ← List.map_id x]
+    apply List.map_congr_left
+    intro c _
+    simp
+  unfold fastaGet
+  simp only [h1, h2]
 
 /-! ### code matrix: rows ↔ columns -/
 
@@ -317,5 +351,43 @@ theorem getCodes_cols {α : Type} (seqs : List (List α)) (t : Trace) (codes : L
     (h : codesFrom t 0 seqs = .ok codes) : transpose t.length codes = t.map (colCodes seqs) := by
   rw [codesFrom_spec t seqs 0 codes h]
   exact transpose_rows_list (seqs.zipIdx 0) t fun p c => codeOf p.1 p.2 c
+
+/-! ### symbols: every row through its own alphabet -/
+
+/-- a decoded entry: gap stays gap, a code becomes the symbol of *this row's* alphabet -/
+def DecodesTo (alph : List Char) (c : Option Nat) (s : Option Char) : Prop :=
+  (c = none ∧ s = none) ∨ ∃ x ch, c = some x ∧ alph[x]? = some ch ∧ s = some ch
+
+theorem decodeEntry_spec {alph : List Char} {c : Option Nat} {s : Option Char} (h : decodeEntry alph c = .ok s) :
+    DecodesTo alph c s := by
+  cases c with
+  | none => simp [decodeEntry] at h; exact Or.inl ⟨rfl, h.symm⟩
+  | some x =>
+    simp only [decodeEntry] at h
+    split at h
+    · next ch hch => simp at h; exact Or.inr ⟨x, ch, rfl, hch, h.symm⟩
+    · cases h
+
+theorem decodeRows_spec : ∀ (alphs : List (List Char)) (codes : List (List (Option Nat))) (sy : List (List (Option Char))),
+    decodeRows alphs codes = .ok sy →
+    All₂ (fun (p : List Char × List (Option Nat)) sr => All₂ (DecodesTo p.1) p.2 sr) (alphs.zip codes) sy := by
+  intro alphs codes
+  induction codes generalizing alphs with
+  | nil => intro sy h; simp [decodeRows] at h; subst h; simp; exact .nil
+  | cons r rs ih =>
+    intro sy h
+    cases alphs with
+    | nil => simp [decodeRows] at h
+    | cons a as =>
+      simp only [decodeRows] at h
+      split at h
+      · cases h
+      · next x hx =>
+        split at h
+        · cases h
+        · next xs hxs =>
+          simp at h; subst h
+          simp only [List.zip_cons_cons]
+          exact .cons ((mapE_ok_forall₂ _ _ _ hx).imp_mem fun c s _ hcs => decodeEntry_spec hcs) (ih as xs hxs)
 
 end BiotiteModel.C11
